@@ -1,3 +1,995 @@
-//! C26 — not built yet.
-pub const BUILT: bool = false;
-pub fn run(_rep: &mut vx::Report) {}
+//! C26 — CMaps map every code to the Unicode they define; generated ToUnicode CMaps parse back.
+//!
+//! Reader half (`lookup-*`, `triples-*`, `syntax`): generated CMap *texts* = code space in
+//! {1-byte, 2-byte, partial 2-byte <8140><9FFC>, the mixed 1+2-byte code space of TN5014
+//! (83pv-RKSJ), partial 4-byte <8EA1A1A1><8EA2FEFE>} x ordered lists (repetition allowed) of
+//! entries from a menu of {bfchar, bfrange offset form, bfrange array form} whose sources sit
+//! on byte-carry points (00FE..0101, FFFF, the edges of the partial code spaces) and whose
+//! destinations are {BMP, surrogate pair, two characters, FFFF, values one step before a
+//! last-byte carry}; entries overlap freely. Each text is parsed by the library's
+//! `CMap::parse` and by the reference interpreter `refpdf::cmap` (same text), and then **every
+//! code** of the code space's lengths is looked up (all 256 one-byte codes, all 65 536
+//! two-byte codes; four-byte: +-300 windows around every entry/code-space bound and every
+//! value of each byte position) through `is_valid_code`, `map`, `to_unicode`.
+//! Oracle (DESIGN.md §4 C26): `is_valid_code` = code space membership (ISO 32000-1 §9.7.6.2,
+//! per byte); for a code inside the code space covered by no entry `map` gives None; covered
+//! by entries: the destination of *any* covering entry is accepted (the format does not order
+//! bfchar against bfrange); an offset-form destination whose last byte would pass 0xFF is
+//! undefined (§9.10.3 "the result of mapping is undefined"): every answer is accepted — the
+//! codes are counted, and how many were answered with something other than {last byte wraps,
+//! carry into the last UTF-16 unit, carry through the string} is recorded in the samples; `to_unicode` must be the UTF-16BE reading when that is well formed;
+//! `map` is not examined outside the code space.
+//!
+//! `strings`: the same interpreter at string level — a page that shows every string of 1..=3
+//! two-byte codes over a 6-code menu (mapped, unmapped, surrogate pair, two characters; byte
+//! patterns chosen so that a mis-aligned read hits another mapped code) with a Type0
+//! /Identity-H font whose ToUnicode CMap is crafted, read back with `TextExtractor`: the
+//! extracted text, minus white space and U+FFFD, must be the concatenation of the mapped
+//! codes' strings; an unmapped code may be rendered as anything (§9.10.2) but must not shift
+//! the code grid: the mapped codes' strings must still appear in order.
+//!
+//! Builder half (`builder-*`): every map of <= 4 entries over an 8-code x 6-string menu, for
+//! 1- and 2-byte codes, through `ToUnicodeCMapBuilder` (both `add_mapping` and
+//! `add_single_byte_mapping`), `fonts::CidMapping::generate_tounicode_cmap` (2-byte) and
+//! `fonts::FontEmbedder::create_to_unicode_cmap` (glyph id -> one character); `writer`: the
+//! document writer's ToUnicode stream for a Type0 font (Roboto) for every subset of <= 4 of
+//! 8 characters. The produced text is parsed by BOTH the reference interpreter (exact map
+//! must equal the input map, code space must be the full space) and the library
+//! (`mappings` must list exactly the input; lookups must return the input strings).
+use oxidize_pdf::fonts::CidMapping;
+use oxidize_pdf::text::cmap::{CMap as LibCMap, CMapEntry, ToUnicodeCMapBuilder};
+use refpdf::cmap::{self as rc, be_bytes, be_value, hex, Value};
+use serde_json::json;
+use std::collections::BTreeMap;
+use vx::{Ctx, Explore, Report};
+
+pub const BUILT: bool = true;
+
+fn h(s: &str) -> Vec<u8> {
+    (0..s.len()).step_by(2).map(|i| u8::from_str_radix(&s[i..i + 2], 16).unwrap()).collect()
+}
+
+#[derive(Clone, Debug, PartialEq, Eq, Hash)]
+enum Spec {
+    Char { src: Vec<u8>, dst: Vec<u8> },
+    Offset { lo: Vec<u8>, hi: Vec<u8>, dst: Vec<u8> },
+    Array { lo: Vec<u8>, hi: Vec<u8>, dsts: Vec<Vec<u8>> },
+}
+
+impl Spec {
+    fn is_char(&self) -> bool {
+        matches!(self, Spec::Char { .. })
+    }
+    fn line(&self, style: usize) -> String {
+        let hx = |b: &[u8]| -> String {
+            match style {
+                3 => {
+                    // lower case, a space inside
+                    let s = hex(b).to_lowercase();
+                    if s.len() > 2 { format!("<{} {}>", &s[..2], &s[2..]) } else { format!("<{s}>") }
+                }
+                _ => format!("<{}>", hex(b)),
+            }
+        };
+        let sep = if style == 2 { "" } else { " " };
+        match self {
+            Spec::Char { src, dst } => format!("{}{sep}{}", hx(src), hx(dst)),
+            Spec::Offset { lo, hi, dst } => format!("{}{sep}{}{sep}{}", hx(lo), hx(hi), hx(dst)),
+            Spec::Array { lo, hi, dsts } => {
+                format!("{}{sep}{}{sep}[{}]", hx(lo), hx(hi), dsts.iter().map(|d| hx(d)).collect::<Vec<_>>().join(sep))
+            }
+        }
+    }
+    fn short(&self) -> String {
+        match self {
+            Spec::Char { .. } => format!("bfchar {}", self.line(0)),
+            Spec::Offset { .. } => format!("bfrange {}", self.line(0)),
+            Spec::Array { lo, hi, dsts } => format!("bfrange <{}> <{}> [{} dsts: <{}> ..]", hex(lo), hex(hi), dsts.len(), hex(&dsts[0])),
+        }
+    }
+    fn anchors(&self) -> Vec<Vec<u8>> {
+        match self {
+            Spec::Char { src, .. } => vec![src.clone()],
+            Spec::Offset { lo, hi, .. } | Spec::Array { lo, hi, .. } => vec![lo.clone(), hi.clone()],
+        }
+    }
+}
+
+struct Space {
+    name: &'static str,
+    ranges: &'static [(&'static str, &'static str)],
+    /// bfchar sources
+    singles: &'static [&'static str],
+    /// bfrange sources (offset and array form)
+    spans: &'static [(&'static str, &'static str)],
+    /// bfrange sources too long for the array form (offset form only, destination <0000>)
+    wide: &'static [(&'static str, &'static str)],
+}
+
+const SPACES: [Space; 5] = [
+    Space { name: "1byte", ranges: &[("00", "FF")], singles: &["00", "41", "FE", "FF"], spans: &[("FE", "FF"), ("41", "43"), ("00", "02")], wide: &[("00", "FF")] },
+    Space {
+        name: "2byte",
+        ranges: &[("0000", "FFFF")],
+        singles: &["00FE", "00FF", "0100", "FFFF"],
+        spans: &[("00FE", "0101"), ("00FF", "0100"), ("FFFE", "FFFF")],
+        wide: &[("0000", "FFFF")],
+    },
+    Space {
+        name: "partial2",
+        ranges: &[("8140", "9FFC")],
+        // 8200 and 81FD lie inside the integer interval 8140..9FFC but outside the byte rectangle
+        singles: &["8140", "81FC", "8200", "9FFC"],
+        spans: &[("81FB", "8241"), ("8140", "8142"), ("9FFB", "9FFC")],
+        wide: &[("8140", "9FFC")],
+    },
+    Space {
+        name: "mixed12",
+        ranges: &[("00", "80"), ("8140", "9FFC"), ("A0", "DF"), ("E040", "FCFC")],
+        singles: &["00", "80", "81", "A0", "8140", "E040"],
+        spans: &[("7F", "80"), ("81FB", "8241"), ("FCFB", "FCFC")],
+        wide: &[("00", "FF")],
+    },
+    Space {
+        name: "4byte",
+        ranges: &[("8EA1A1A1", "8EA2FEFE")],
+        singles: &["8EA1A1A1", "8EA1A1FE", "8EA2FEFE"],
+        spans: &[("8EA1A1FD", "8EA1A2A2"), ("8EA1A1A1", "8EA1A1A3")],
+        wide: &[("8EA1A1A1", "8EA2FEFE")],
+    },
+];
+
+const D_BMP: &str = "0041";
+const D_PAIR: &str = "D83DDE00";
+const D_TWO: &str = "00660069";
+const D_FFFF: &str = "FFFF";
+const D_NEAR: &str = "00FE"; // one step before a last-byte carry
+const D_PAIR_NEAR: &str = "D83DDFFE";
+const D_FFFE: &str = "FFFE";
+const D_THREE_UNITS: &str = "0041D83DDE00";
+
+fn menu(sp: &Space, size: usize) -> Vec<Spec> {
+    // size 0 = reduced (for triples in the quick tier), 1 = quick, 2 = thorough
+    let char_d: &[&str] = match size {
+        0 => &[D_BMP, D_PAIR],
+        1 => &[D_BMP, D_PAIR, D_TWO, D_FFFF],
+        _ => &[D_BMP, D_PAIR, D_TWO, D_FFFF, D_THREE_UNITS],
+    };
+    let off_d: &[&str] = match size {
+        0 => &[D_BMP, D_NEAR],
+        1 => &[D_BMP, D_NEAR, D_PAIR, D_PAIR_NEAR, D_TWO],
+        _ => &[D_BMP, D_NEAR, D_PAIR, D_PAIR_NEAR, D_TWO, D_FFFE, D_FFFF],
+    };
+    let cycle = [D_BMP, D_PAIR, D_TWO, D_FFFF];
+    let mut m = Vec::new();
+    let singles = if size == 0 { &sp.singles[..sp.singles.len().min(3)] } else { sp.singles };
+    let spans = if size == 0 { &sp.spans[..sp.spans.len().min(2)] } else { sp.spans };
+    for s in singles {
+        for d in char_d {
+            m.push(Spec::Char { src: h(s), dst: h(d) });
+        }
+    }
+    for (lo, hi) in spans {
+        for d in off_d {
+            m.push(Spec::Offset { lo: h(lo), hi: h(hi), dst: h(d) });
+        }
+        let n = (be_value(&h(hi)) - be_value(&h(lo)) + 1) as usize;
+        let starts: &[usize] = if size == 2 { &[0, 2] } else { &[0] };
+        for st in starts {
+            m.push(Spec::Array { lo: h(lo), hi: h(hi), dsts: (0..n).map(|k| h(cycle[(st + k) % 4])).collect() });
+        }
+    }
+    if size > 0 {
+        for (lo, hi) in sp.wide {
+            m.push(Spec::Offset { lo: h(lo), hi: h(hi), dst: h("0000") });
+        }
+    }
+    m
+}
+
+const HEADER: &str = "/CIDInit /ProcSet findresource begin\n12 dict begin\nbegincmap\n/CIDSystemInfo\n<< /Registry (Adobe)\n/Ordering (UCS)\n/Supplement 0\n>> def\n/CMapName /Adobe-Identity-UCS def\n/CMapType 2 def\n";
+const FOOTER: &str = "endcmap\nCMapName currentdict /CMap defineresource pop\nend\nend\n";
+
+/// layout 0: Adobe wrapper, one block per entry. 1: same-kind neighbours share a block.
+/// 2: no wrapper, one line, no blanks between strings. 3: wrapper, lower-case hex with a blank
+/// inside, CR LF line ends, comment lines.
+fn render(sp: &Space, entries: &[Spec], layout: usize) -> String {
+    let nl = match layout {
+        2 => " ",
+        3 => "\r\n",
+        _ => "\n",
+    };
+    let mut t = String::new();
+    if layout != 2 {
+        t.push_str(&HEADER.replace('\n', if layout == 3 { "\r\n" } else { "\n" }));
+    }
+    let cs_line = |lo: &str, hi: &str| Spec::Char { src: h(lo), dst: h(hi) }.line(layout);
+    t.push_str(&format!("{} begincodespacerange{nl}", sp.ranges.len()));
+    for (lo, hi) in sp.ranges {
+        t.push_str(&cs_line(lo, hi));
+        t.push_str(nl);
+    }
+    t.push_str(&format!("endcodespacerange{nl}"));
+    let mut i = 0;
+    while i < entries.len() {
+        let mut j = i + 1;
+        if layout == 1 || layout == 2 {
+            while j < entries.len() && entries[j].is_char() == entries[i].is_char() {
+                j += 1;
+            }
+        }
+        let (b, e) = if entries[i].is_char() { ("beginbfchar", "endbfchar") } else { ("beginbfrange", "endbfrange") };
+        if layout == 3 {
+            t.push_str("% entry block\r\n");
+        }
+        t.push_str(&format!("{} {b}{nl}", j - i));
+        for s in &entries[i..j] {
+            t.push_str(&s.line(layout));
+            t.push_str(nl);
+        }
+        t.push_str(&format!("{e}{nl}"));
+        i = j;
+    }
+    if layout != 2 {
+        t.push_str(&FOOTER.replace('\n', if layout == 3 { "\r\n" } else { "\n" }));
+    }
+    t
+}
+
+/// The defect signature seen in the library: a code space range read as an interval of the
+/// code's integer value instead of a per-byte rectangle.
+fn integer_interval_membership(r: &rc::CMap, code: &[u8]) -> bool {
+    r.codespace.iter().any(|cs| cs.lo.len() == code.len() && cs.lo.as_slice() <= code && code <= cs.hi.as_slice())
+}
+
+#[derive(Default)]
+struct Tally {
+    codes: u64,
+    inside: u64,
+    covered: u64,
+    undefined_carry: u64,
+    /// undefined-carry codes answered with something other than wrap / carry (incl. None)
+    undefined_unrecognised: u64,
+    overlapped: u64,
+    membership_bad: u64,
+    membership_all_integer_model: bool,
+    first: BTreeMap<&'static str, String>,
+    oh: u64,
+}
+
+impl Tally {
+    fn fail(&mut self, key: &'static str, detail: impl FnOnce() -> String) {
+        self.first.entry(key).or_insert_with(detail);
+    }
+}
+
+/// Examine one code through the library against the reference.
+fn examine(lib: &LibCMap, r: &rc::CMap, cover: &[(usize, u64, u64)], code: &[u8], t: &mut Tally) {
+    t.codes += 1;
+    let vr = r.in_codespace(code);
+    let vl = lib.is_valid_code(code);
+    if vr != vl {
+        t.membership_bad += 1;
+        t.fail("membership", || format!("is_valid_code(<{}>) = {vl}, code space membership is {vr}", hex(code)));
+    }
+    if vl != integer_interval_membership(r, code) {
+        t.membership_all_integer_model = false;
+    }
+    if !vr {
+        return;
+    }
+    t.inside += 1;
+    let v = be_value(code);
+    let is_cov = cover.iter().any(|(len, lo, hi)| *len == code.len() && *lo <= v && v <= *hi);
+    let m = lib.map(code);
+    if !is_cov {
+        if let Some(x) = &m {
+            t.fail("C26/map-answers-for-a-code-no-entry-covers", || format!("map(<{}>) = <{}>, no bfchar/bfrange covers the code", hex(code), hex(x)));
+        }
+        return;
+    }
+    t.covered += 1;
+    let cands = r.candidates(code);
+    if cands.len() > 1 {
+        t.overlapped += 1;
+    }
+    let Some(got) = m else {
+        if cands.iter().all(|c| matches!(c, Value::CarryUndefined(_))) {
+            // "the result of mapping is undefined" (ISO 32000-1 9.10.3): no answer is an answer
+            t.undefined_carry += 1;
+            t.undefined_unrecognised += 1;
+            return;
+        }
+        t.fail("C26/map-none-for-a-covered-code", || format!("map(<{}>) = None, covering entries give {cands:02X?}", hex(code)));
+        return;
+    };
+    t.oh = vx::hmix(t.oh, vx::hmix(v, vx::hbytes(&got)));
+    let mut accepted = false;
+    let mut undefined = false;
+    for c in &cands {
+        match c {
+            Value::Exact(d) => accepted |= *d == got,
+            Value::CarryUndefined(readings) => {
+                undefined = true;
+                accepted |= readings.contains(&got);
+            }
+        }
+    }
+    if undefined {
+        t.undefined_carry += 1;
+    }
+    if !accepted {
+        if undefined {
+            // undefined by the standard: any answer conforms; counted, not judged
+            t.undefined_unrecognised += 1;
+            return;
+        }
+        t.fail("C26/map-wrong-destination", || format!("map(<{}>) = <{}>, covering entries give {cands:02X?}", hex(code), hex(&got)));
+        return;
+    }
+    // to_unicode: the UTF-16BE reading of what map returned, when well formed
+    if let Some(want) = rc::utf16be_to_string(&got) {
+        let text = lib.to_unicode(&got);
+        if text.as_deref() != Some(want.as_str()) {
+            t.fail("C26/to_unicode-wrong-text", || format!("to_unicode(<{}>) = {text:?}, UTF-16BE reading is {want:?} (code <{}>)", hex(&got), hex(code)));
+        }
+    }
+}
+
+fn flush(c: &mut Ctx, t: Tally, what: &str) {
+    if let Some(d) = t.first.get("membership") {
+        let key = if t.membership_all_integer_model {
+            "C26/is_valid_code-reads-codespace-range-as-integer-interval"
+        } else {
+            "C26/is_valid_code-mismatch"
+        };
+        c.fail(key, format!("{what}: {} codes with wrong membership; first: {d}", t.membership_bad));
+    }
+    for (k, d) in &t.first {
+        if *k != "membership" {
+            c.fail(*k, format!("{what}: {d}"));
+        }
+    }
+    c.add_evaluations(t.codes);
+    c.outcome(vx::hmix(t.oh, vx::h64(&(t.inside, t.covered, t.membership_bad))));
+}
+
+/// all codes examined for one CMap of a space
+fn sweep(sp: &Space, entries: &[Spec], lib: &LibCMap, r: &rc::CMap, t: &mut Tally) {
+    let cover: Vec<(usize, u64, u64)> = r
+        .entries
+        .iter()
+        .filter_map(|e| match e {
+            rc::Entry::BfChar { src, .. } => Some((src.len(), be_value(src), be_value(src))),
+            rc::Entry::BfRange { lo, hi, .. } | rc::Entry::BfRangeArray { lo, hi, .. } => Some((lo.len(), be_value(lo), be_value(hi))),
+            _ => None,
+        })
+        .collect();
+    let lens: Vec<usize> = {
+        let mut v: Vec<usize> = sp.ranges.iter().map(|(lo, _)| lo.len() / 2).collect();
+        v.sort();
+        v.dedup();
+        v
+    };
+    t.membership_all_integer_model = true;
+    // one-byte codes: always (membership must be false where the space has no 1-byte range)
+    for b in 0u16..256 {
+        examine(lib, r, &cover, &[b as u8], t);
+    }
+    // two-byte codes: every code when the space has 2-byte ranges; for the other spaces the
+    // membership of all 65 536 is probed once, in the case without entries (it does not
+    // depend on the entries)
+    if lens.contains(&2) || entries.is_empty() {
+        for v in 0u32..65536 {
+            examine(lib, r, &cover, &[(v >> 8) as u8, v as u8], t);
+        }
+    }
+    // other lengths: fixed probes
+    let probes: [&[u8]; 6] = [&[], &[0, 0, 0], &[0x81, 0x40, 0x00], &[0x8E, 0xA1, 0xA1], &[0, 0, 0, 0], &[0x8E, 0xA1, 0xA1, 0xA1, 0xA1]];
+    for code in probes {
+        examine(lib, r, &cover, code, t);
+    }
+    if lens.contains(&4) {
+        let mut anchors: Vec<u64> = sp.ranges.iter().flat_map(|(lo, hi)| [be_value(&h(lo)), be_value(&h(hi))]).collect();
+        for e in entries {
+            anchors.extend(e.anchors().iter().filter(|a| a.len() == 4).map(|a| be_value(a)));
+        }
+        anchors.sort();
+        anchors.dedup();
+        let mut codes: std::collections::BTreeSet<u64> = Default::default();
+        for a in &anchors {
+            for v in a.saturating_sub(300)..=(a + 300).min(0xFFFF_FFFF) {
+                codes.insert(v);
+            }
+        }
+        // every value of each byte position, the other bytes at the low / high bound
+        for (lo, hi) in sp.ranges {
+            for base in [h(lo), h(hi)] {
+                for pos in 0..4 {
+                    for x in 0u16..256 {
+                        let mut cde = base.clone();
+                        cde[pos] = x as u8;
+                        codes.insert(be_value(&cde));
+                    }
+                }
+            }
+        }
+        for v in codes {
+            examine(lib, r, &cover, &be_bytes(v, 4), t);
+        }
+    }
+}
+
+fn lookup_case(c: &mut Ctx, sp: &Space, entries: &[Spec], layout: usize) {
+    let text = render(sp, entries, layout);
+    c.input(vx::hbytes(text.as_bytes()));
+    if !entries.is_empty() {
+        c.nontrivial();
+    }
+    let what = format!("space {} entries [{}]{}", sp.name, entries.iter().map(|e| e.short()).collect::<Vec<_>>().join(" | "), if layout > 0 { format!(" layout {layout}") } else { String::new() });
+    let r = match rc::CMap::parse(text.as_bytes()) {
+        Ok(r) => r,
+        Err(e) => {
+            c.fail("C26/check-bug-reference-rejects-generated-cmap", format!("{what}: {e}\n{text}"));
+            return;
+        }
+    };
+    if r.entries.len() != entries.len() || r.codespace.len() != sp.ranges.len() {
+        c.fail("C26/check-bug-reference-parse-differs-from-generator", format!("{what}: {r:?}"));
+        return;
+    }
+    let lib = match vx::guard(|| LibCMap::parse(text.as_bytes())) {
+        Ok(Ok(l)) => l,
+        Ok(Err(e)) => {
+            c.fail("C26/parse-rejects-valid-cmap", format!("{what}: {e:?}"));
+            return;
+        }
+        Err(p) => {
+            c.fail("C26/parse-panics", format!("{what}: {p}"));
+            return;
+        }
+    };
+    let mut t = Tally::default();
+    if let Err(p) = vx::guard(|| sweep(sp, entries, &lib, &r, &mut t)) {
+        c.fail("C26/lookup-panics", format!("{what}: {p}"));
+        return;
+    }
+    c.sample(json!({"space": sp.name, "layout": layout, "entries": entries.iter().map(|e| e.short()).collect::<Vec<_>>(),
+                    "codes_examined": t.codes, "inside_code_space": t.inside, "covered": t.covered,
+                    "covered_by_several_entries": t.overlapped, "undefined_carry_codes": t.undefined_carry,
+                    "undefined_carry_codes_answered_neither_wrap_nor_carry": t.undefined_unrecognised}));
+    flush(c, t, &what);
+}
+
+// ------------------------------------------------------------------------------ builder half
+
+const STRINGS: [&str; 6] = ["A", "\u{E9}", "\u{20AC}", "\u{1F600}", "fi", "\u{FFFF}"];
+const CODES1: [&str; 8] = ["00", "01", "20", "41", "7F", "80", "FE", "FF"];
+const CODES2: [&str; 8] = ["0000", "0041", "00FE", "00FF", "0100", "0101", "FFFE", "FFFF"];
+
+/// every map of <= 4 entries: for each of the 8 codes "absent" or one of `nstr` strings
+fn choose_map(c: &mut Ctx, codes: &[&str; 8], nstr: usize, distinct_strings: bool) -> Vec<(Vec<u8>, usize)> {
+    let mut m: Vec<(Vec<u8>, usize)> = Vec::new();
+    for code in codes {
+        if m.len() == 4 {
+            break;
+        }
+        let avail: Vec<usize> = (0..nstr).filter(|s| !distinct_strings || !m.iter().any(|(_, u)| u == s)).collect();
+        let k = c.choose("absent-or-string", 1 + avail.len());
+        if k > 0 {
+            m.push((h(code), avail[k - 1]));
+        }
+    }
+    m
+}
+
+/// What both parsers must make of a generated ToUnicode CMap.
+fn check_built(c: &mut Ctx, what: &str, text: &[u8], code_len: usize, want: &BTreeMap<Vec<u8>, String>, full_sweep: bool) {
+    let show = || String::from_utf8_lossy(text).replace('\n', "\\n");
+    // A hex string with an odd number of digits is the signature of the known generator defect
+    // "character above U+FFFF formatted with {:04X}" (<1F600>): such a text is not a valid
+    // ToUnicode CMap (the destination is not UTF-16BE), so what the library's own parser makes
+    // of the rest of it is not examined.
+    let odd_hex = {
+        let t = String::from_utf8_lossy(text);
+        let astral = want.values().any(|s| s.chars().any(|ch| ch as u32 > 0xFFFF));
+        astral && t.split('<').skip(1).any(|seg| seg.split('>').next().map(|d| !d.is_empty() && d.len() % 2 == 1 && d.chars().all(|x| x.is_ascii_hexdigit())).unwrap_or(false))
+    };
+    if odd_hex {
+        c.fail(format!("C26/{what}-writes-character-above-FFFF-as-5-hex-digits"), format!("map {want:?}; text {}", show()));
+        return;
+    }
+    // reference interpreter
+    match rc::CMap::parse(text) {
+        Err(e) => c.fail(format!("C26/{what}-output-rejected-by-reference-interpreter"), format!("map {want:?}: {e}; text {}", show())),
+        Ok(r) => {
+            let full = vec![rc::CodeSpaceRange { lo: vec![0; code_len], hi: vec![0xFF; code_len] }];
+            if r.codespace != full {
+                c.fail(format!("C26/{what}-codespace-not-the-full-space"), format!("map {want:?}: code space {:?}", r.codespace));
+            }
+            // every code any entry covers, with the value of every covering entry
+            let mut got: BTreeMap<Vec<u8>, Vec<Value>> = BTreeMap::new();
+            for e in &r.entries {
+                let (lo, hi, len) = match e {
+                    rc::Entry::BfChar { src, .. } => (be_value(src), be_value(src), src.len()),
+                    rc::Entry::BfRange { lo, hi, .. } | rc::Entry::BfRangeArray { lo, hi, .. } => (be_value(lo), be_value(hi), lo.len()),
+                    _ => continue,
+                };
+                for v in lo..=hi.min(lo + 70000) {
+                    let code = be_bytes(v, len);
+                    if let Some(val) = e.bf_value(&code) {
+                        got.entry(code).or_default().push(val);
+                    }
+                }
+            }
+            let mut undefined: Option<Vec<u8>> = None;
+            let mut wrong: Option<String> = None;
+            if got.keys().collect::<Vec<_>>() != want.keys().collect::<Vec<_>>() {
+                wrong = Some(format!("codes with a mapping {:?}", got.keys().map(|k| hex(k)).collect::<Vec<_>>()));
+            }
+            for (code, vals) in &got {
+                if vals.len() > 1 {
+                    c.fail(format!("C26/{what}-maps-a-code-twice"), format!("code <{}>: {vals:02X?}; text {}", hex(code), show()));
+                }
+                let w = want.get(code);
+                for v in vals {
+                    let ok = match v {
+                        Value::Exact(d) => rc::utf16be_to_string(d).as_ref() == w,
+                        Value::CarryUndefined(readings) => {
+                            undefined.get_or_insert_with(|| code.clone());
+                            readings.iter().any(|d| rc::utf16be_to_string(d).as_ref() == w)
+                        }
+                    };
+                    if !ok && wrong.is_none() {
+                        wrong = Some(format!("code <{}> reads {v:02X?}, want {w:?}", hex(code)));
+                    }
+                }
+            }
+            if let Some(code) = undefined {
+                // ISO 32000-1 9.10.3: "the value of the last byte in the string shall be less than or
+                // equal to 255 - (srcCode2 - srcCode1) ... otherwise, the result of mapping is undefined"
+                c.fail(
+                    format!("C26/{what}-bfrange-destination-last-byte-passes-255"),
+                    format!("map {want:?}: the mapping of code <{}> relies on a carry out of the destination's last byte; text {}", hex(&code), show()),
+                );
+            }
+            if let Some(wr) = wrong {
+                c.fail(format!("C26/{what}-reads-back-differently-in-reference-interpreter"), format!("map {want:?}: {wr}; text {}", show()));
+            }
+        }
+    }
+    // the library's own parser
+    let lib = match vx::guard(|| LibCMap::parse(text)) {
+        Ok(Ok(l)) => l,
+        other => {
+            c.fail(format!("C26/{what}-output-rejected-by-library-parser"), format!("map {want:?}: {:?}", other.map(|r| r.map(|_| ()))));
+            return;
+        }
+    };
+    // `mappings` lists every entry the parser kept: it must be exactly the input
+    let mut listed: BTreeMap<Vec<u8>, Option<String>> = BTreeMap::new();
+    for e in &lib.mappings {
+        match e {
+            CMapEntry::Single { src, dst } => {
+                listed.insert(src.clone(), lib.to_unicode(dst));
+            }
+            CMapEntry::Range { src_start, src_end, .. } => {
+                let (lo, hi) = (be_value(src_start), be_value(src_end));
+                for v in lo..=hi.min(lo + 70000) {
+                    let code = be_bytes(v, src_start.len());
+                    let t = lib.map(&code).and_then(|m| lib.to_unicode(&m));
+                    listed.insert(code, t);
+                }
+            }
+        }
+    }
+    let w: BTreeMap<Vec<u8>, Option<String>> = want.iter().map(|(k, v)| (k.clone(), Some(v.clone()))).collect();
+    if listed != w {
+        c.fail(format!("C26/{what}-reads-back-differently-in-library-parser"), format!("want {w:?} got {listed:?}; text {}", show()));
+    }
+    let probe = |code: &[u8], c: &mut Ctx| {
+        let got = lib.map(code).and_then(|m| lib.to_unicode(&m));
+        let wv = want.get(code).cloned();
+        if got != wv {
+            c.fail(format!("C26/{what}-lookup-differs-in-library-parser"), format!("code <{}> want {wv:?} got {got:?}; text {}", hex(code), show()));
+        }
+        if !lib.is_valid_code(code) {
+            c.fail(format!("C26/{what}-code-outside-own-codespace"), format!("code <{}>; text {}", hex(code), show()));
+        }
+    };
+    let n = if code_len == 1 { 256u64 } else { 65536 };
+    if code_len == 1 || full_sweep {
+        for v in 0..n {
+            probe(&be_bytes(v, code_len), c);
+        }
+        c.add_evaluations(n);
+    } else {
+        let mut vs: Vec<u64> = Vec::new();
+        for k in want.keys().map(|k| be_value(k)).chain(CODES2.iter().map(|s| be_value(&h(s)))) {
+            vs.extend([k.saturating_sub(1), k, (k + 1).min(n - 1)]);
+        }
+        vs.sort();
+        vs.dedup();
+        c.add_evaluations(vs.len() as u64);
+        for v in vs {
+            probe(&be_bytes(v, code_len), c);
+        }
+    }
+}
+
+pub fn run(rep: &mut Report) {
+    let thorough = rep.tier.is_thorough();
+    rep.rule(
+        "enumerated case = one generated CMap text (code space x ordered entry list x layout) with every code of \
+         the code space's lengths looked up inside, or one code->string map through one generator; non-trivial = \
+         at least one entry; distinct = distinct generated text (hash) / distinct map, distinct outcome = \
+         distinct table of library answers",
+    );
+    rep.assume("reference interpreter refpdf::cmap written from Adobe TN5014/TN5411 and ISO 32000-1 §9.7.6.2/§9.10.3; unit-tested on the standard's ToUnicode example, the TN5014 code-space example and 9 ToUnicode streams of real producers");
+    rep.assume("a source range <lo> <hi> denotes the codes whose big-endian value lies in lo..=hi (the reading every consumer of <0000><FFFF> identity ranges takes)");
+    rep.assume("a code covered by several entries may map to the destination of any of them; an offset-form destination whose last byte would pass 0xFF is undefined by ISO 32000-1 9.10.3 and any answer is accepted (counted)");
+    rep.assume("map() is examined only for codes inside the code space; is_valid_code must equal per-byte code space membership for every examined code");
+    rep.assume("to_unicode is compared only when the destination is well-formed UTF-16BE");
+
+    // ---------------------------------------------------------------- reader half
+    for sp in &SPACES {
+        let m = menu(sp, if thorough { 2 } else { 1 });
+        let max = if thorough { 3 } else { 2 };
+        rep.note(&format!("menu_{}", sp.name), json!({"entries_in_menu": m.len(), "max_entries_per_cmap": max}));
+        rep.explore(&format!("lookup-{}", sp.name), Explore::full(), |c: &mut Ctx| {
+            let n = c.choose("n_entries", max + 1);
+            let entries: Vec<Spec> = (0..n).map(|_| c.pick_from("entry", &m).clone()).collect();
+            lookup_case(c, sp, &entries, 0);
+        });
+        if !thorough {
+            // triples over a reduced menu (the thorough tier has triples over the full menu)
+            let m0 = menu(sp, 0);
+            rep.explore(&format!("triples-{}", sp.name), Explore::full(), |c: &mut Ctx| {
+                let entries: Vec<Spec> = (0..3).map(|_| c.pick_from("entry", &m0).clone()).collect();
+                lookup_case(c, sp, &entries, 0);
+            });
+        }
+    }
+    {
+        let sp = &SPACES[1];
+        let m = menu(sp, 1);
+        rep.explore("syntax", Explore::full(), |c: &mut Ctx| {
+            let layout = 1 + c.choose("layout", 3);
+            let n = c.choose("n_entries", 3);
+            let entries: Vec<Spec> = (0..n).map(|_| c.pick_from("entry", &m).clone()).collect();
+            lookup_case(c, sp, &entries, layout);
+        });
+    }
+
+    // ---------------------------------------------------------------- builder half
+    for (code_len, codes) in [(1usize, &CODES1), (2, &CODES2)] {
+        rep.explore(&format!("builder-tounicode-{code_len}byte"), Explore::full(), |c: &mut Ctx| {
+            let api = c.choose("api", 2);
+            let m = choose_map(c, codes, STRINGS.len(), false);
+            c.input(vx::h64(&(api, &m)));
+            if !m.is_empty() {
+                c.nontrivial();
+            }
+            let mut b = ToUnicodeCMapBuilder::new(code_len);
+            for (code, s) in &m {
+                let st = STRINGS[*s];
+                let single = st.chars().count() == 1 && code[..code.len() - 1].iter().all(|x| *x == 0);
+                if api == 1 && single {
+                    b.add_single_byte_mapping(*code.last().unwrap(), st.chars().next().unwrap());
+                } else {
+                    b.add_mapping(code.clone(), st);
+                }
+            }
+            let text = match vx::guard(|| b.build()) {
+                Ok(t) => t,
+                Err(p) => {
+                    c.fail("C26/tounicode-builder-panics", format!("{m:?}: {p}"));
+                    return;
+                }
+            };
+            c.outcome(vx::hbytes(&text));
+            let want: BTreeMap<Vec<u8>, String> = m.iter().map(|(k, s)| (k.clone(), STRINGS[*s].to_string())).collect();
+            c.sample(json!({"generator": "ToUnicodeCMapBuilder", "code_len": code_len, "api": if api == 1 { "add_single_byte_mapping where possible" } else { "add_mapping" },
+                            "map": want.iter().map(|(k, v)| format!("<{}> -> {:?}", hex(k), v)).collect::<Vec<_>>()}));
+            check_built(c, "tounicode-builder", &text, code_len, &want, m.len() <= if thorough { 3 } else { 2 });
+        });
+    }
+
+    rep.explore("builder-cidmapping", Explore::full(), |c: &mut Ctx| {
+        // where single-character strings go: 0 = cid_to_unicode (code point), 1 = cid_to_unicode_str
+        let place = c.choose("single-chars-in", 2);
+        let m = choose_map(c, &CODES2, STRINGS.len(), false);
+        c.input(vx::h64(&(place, &m)));
+        if !m.is_empty() {
+            c.nontrivial();
+        }
+        let mut cm = CidMapping::new();
+        for (code, s) in &m {
+            let cid = be_value(code) as u16;
+            let st = STRINGS[*s];
+            if st.chars().count() == 1 && place == 0 {
+                cm.cid_to_unicode.insert(cid, st.chars().next().unwrap() as u32);
+            } else {
+                cm.cid_to_unicode_str.insert(cid, st.to_string());
+            }
+            cm.max_cid = cm.max_cid.max(cid);
+        }
+        let text = match vx::guard(|| cm.generate_tounicode_cmap()) {
+            Ok(t) => t,
+            Err(p) => {
+                c.fail("C26/cidmapping-generator-panics", format!("{m:?}: {p}"));
+                return;
+            }
+        };
+        c.outcome(vx::hbytes(&text));
+        let want: BTreeMap<Vec<u8>, String> = m.iter().map(|(k, s)| (k.clone(), STRINGS[*s].to_string())).collect();
+        c.sample(json!({"generator": "CidMapping::generate_tounicode_cmap", "map": want.iter().map(|(k, v)| format!("<{}> -> {:?}", hex(k), v)).collect::<Vec<_>>()}));
+        check_built(c, "cidmapping", &text, 2, &want, m.len() <= if thorough { 2 } else { 1 });
+    });
+
+    rep.explore("builder-fontembedder", Explore::full(), |c: &mut Ctx| {
+        use oxidize_pdf::fonts::{EmbeddingOptions, Font, FontEmbedder};
+        // glyph id -> one character; a character belongs to one glyph, so strings are distinct
+        const CH: [usize; 5] = [0, 1, 2, 3, 5];
+        let m0 = choose_map(c, &CODES2, CH.len(), true);
+        let m: Vec<(Vec<u8>, usize)> = m0.into_iter().map(|(k, s)| (k, CH[s])).collect();
+        c.input(vx::h64(&m));
+        if !m.is_empty() {
+            c.nontrivial();
+        }
+        let mut font = Font::new("F");
+        let mut used = String::new();
+        for (code, s) in &m {
+            let ch = STRINGS[*s].chars().next().unwrap();
+            font.glyph_mapping.add_mapping(ch, be_value(code) as u16);
+            used.push(ch);
+        }
+        let text = match vx::guard(|| {
+            let mut fe = FontEmbedder::new(&font, EmbeddingOptions::default());
+            fe.add_used_chars(&used);
+            fe.create_to_unicode_cmap()
+        }) {
+            Ok(t) => t,
+            Err(p) => {
+                c.fail("C26/fontembedder-generator-panics", format!("{m:?}: {p}"));
+                return;
+            }
+        };
+        c.outcome(vx::hbytes(&text));
+        let want: BTreeMap<Vec<u8>, String> = m.iter().map(|(k, s)| (k.clone(), STRINGS[*s].to_string())).collect();
+        c.sample(json!({"generator": "FontEmbedder::create_to_unicode_cmap", "map": want.iter().map(|(k, v)| format!("<{}> -> {:?}", hex(k), v)).collect::<Vec<_>>()}));
+        check_built(c, "fontembedder", &text, 2, &want, m.len() <= 1);
+    });
+
+    writer::run(rep);
+    strings::run(rep);
+}
+
+/// The document writer's ToUnicode stream (`generate_tounicode_cmap_from_font`, private): a
+/// document that shows a set of characters in an embedded TrueType font, written, the
+/// ToUnicode stream of the Type0 font located with the reference file reader.
+mod writer {
+    use super::*;
+    use oxidize_pdf::{Document, Font, Page};
+
+    /// consecutive runs (bfrange candidates), a run across the 00FF/0100 byte boundary, singles
+    const CHARS: [char; 8] = ['A', 'B', 'C', '\u{FE}', '\u{FF}', '\u{100}', '\u{101}', '\u{20AC}'];
+
+    pub fn run(rep: &mut Report) {
+        let font_path = vx::repo_root().join("test-pdfs/Roboto-Regular.ttf");
+        let font_bytes = match std::fs::read(&font_path) {
+            Ok(b) => b,
+            Err(e) => {
+                rep.machinery_error(format!("C26 writer section: cannot read {}: {e}", font_path.display()));
+                return;
+            }
+        };
+        rep.explore("writer", Explore::full(), |c: &mut Ctx| {
+            let mut set: Vec<char> = Vec::new();
+            for ch in CHARS {
+                if set.len() == 4 {
+                    break;
+                }
+                if c.flag("uses-char") {
+                    set.push(ch);
+                }
+            }
+            c.input(vx::h64(&set));
+            if set.is_empty() {
+                return;
+            }
+            c.nontrivial();
+            let text: String = set.iter().collect();
+            let bytes = vx::guard(|| -> Result<Vec<u8>, String> {
+                let mut doc = Document::new();
+                doc.add_font_from_bytes("Roboto", font_bytes.clone()).map_err(|e| format!("{e:?}"))?;
+                let mut page = Page::a4();
+                page.text().set_font(Font::Custom("Roboto".to_string()), 12.0).at(50.0, 700.0).write(&text).map_err(|e| format!("{e:?}"))?;
+                doc.add_page(page);
+                doc.to_bytes().map_err(|e| format!("{e:?}"))
+            });
+            let bytes = match bytes {
+                Ok(Ok(b)) => b,
+                other => {
+                    c.fail("C26/writer-cannot-write-document", format!("{text:?}: {:?}", other.map(|r| r.map(|b| b.len()))));
+                    return;
+                }
+            };
+            let f = match refpdf::file::PdfFile::parse(&bytes) {
+                Ok(f) => f,
+                Err(e) => {
+                    c.fail("C26/writer-file-unreadable-by-reference-reader", format!("{text:?}: {e}"));
+                    return;
+                }
+            };
+            let mut streams: Vec<Vec<u8>> = Vec::new();
+            for n in f.live_objects() {
+                let o = f.get(n);
+                if let Some(tu) = o.as_dict().and_then(|d| d.get("ToUnicode")) {
+                    if let Some(st) = f.resolve(tu).as_stream() {
+                        if let Ok(d) = f.stream_data(st) {
+                            streams.push(d);
+                        }
+                    }
+                }
+            }
+            if streams.len() != 1 {
+                c.fail("C26/writer-tounicode-stream-not-found", format!("{text:?}: {} ToUnicode streams", streams.len()));
+                return;
+            }
+            let cmap_text = &streams[0];
+            c.outcome(vx::hbytes(cmap_text));
+            // Identity-H with CID = Unicode code point: code = UTF-16 unit of the character
+            let want: BTreeMap<Vec<u8>, String> = set.iter().map(|ch| (be_bytes(*ch as u64, 2), ch.to_string())).collect();
+            c.sample(json!({"generator": "PdfWriter (Type0 font ToUnicode)", "chars": set.iter().map(|ch| format!("U+{:04X}", *ch as u32)).collect::<Vec<_>>()}));
+            // the writer is allowed to use bfrange; a range that relies on a carry out of the last
+            // destination byte is reported under its own key by check_built ("output-ambiguous")
+            check_built(c, "writer", cmap_text, 2, &want, set.len() <= 1);
+        });
+    }
+}
+
+/// String-level decoding through the text extractor (text/extraction_cmap.rs decode_with_cmap).
+mod strings {
+    use super::*;
+    use oxidize_pdf::parser::{PdfDocument, PdfReader};
+    use oxidize_pdf::text::TextExtractor;
+    use refpdf::builder::{FileBuilder, Revision, XrefForm};
+    use refpdf::syntax::Obj;
+    use std::io::Cursor;
+
+    /// (code, what the ToUnicode CMap maps it to). <0042> is inside the code space and unmapped;
+    /// <4241> and <4100> are what a reader sees when it slips by one byte after <0042>.
+    const CODES: [(&str, Option<&str>); 6] =
+        [("0041", Some("A")), ("0042", None), ("4100", Some("X")), ("4241", Some("Y")), ("0100", Some("\u{1F600}")), ("00FF", Some("fi"))];
+    const TOUNICODE: &str = "/CIDInit /ProcSet findresource begin\n12 dict begin\nbegincmap\n/CMapName /Adobe-Identity-UCS def\n/CMapType 2 def\n1 begincodespacerange\n<0000> <FFFF>\nendcodespacerange\n3 beginbfchar\n<0041> <0041>\n<4100> <0058>\n<4241> <0059>\nendbfchar\n1 beginbfrange\n<00FF> <0100> [<00660069> <D83DDE00>]\nendbfrange\nendcmap\nCMapName currentdict /CMap defineresource pop\nend\nend\n";
+
+    fn build(hexstr: &str) -> Vec<u8> {
+        let mut r = Revision::new(XrefForm::Table);
+        r.add(1, Obj::dict(vec![("Type", Obj::name("Catalog")), ("Pages", Obj::Ref(2, 0))]));
+        r.add(2, Obj::dict(vec![("Type", Obj::name("Pages")), ("Kids", Obj::Array(vec![Obj::Ref(3, 0)])), ("Count", Obj::Int(1))]));
+        r.add(
+            3,
+            Obj::dict(vec![
+                ("Type", Obj::name("Page")),
+                ("Parent", Obj::Ref(2, 0)),
+                ("MediaBox", Obj::Array(vec![Obj::Int(0), Obj::Int(0), Obj::Int(612), Obj::Int(792)])),
+                ("Resources", Obj::dict(vec![("Font", Obj::dict(vec![("F1", Obj::Ref(5, 0))]))])),
+                ("Contents", Obj::Ref(4, 0)),
+            ]),
+        );
+        r.add(4, Obj::stream(vec![], format!("BT /F1 12 Tf 72 720 Td <{hexstr}> Tj ET").into_bytes()));
+        r.add(
+            5,
+            Obj::dict(vec![
+                ("Type", Obj::name("Font")),
+                ("Subtype", Obj::name("Type0")),
+                ("BaseFont", Obj::name("VerifSans")),
+                ("Encoding", Obj::name("Identity-H")),
+                ("DescendantFonts", Obj::Array(vec![Obj::Ref(6, 0)])),
+                ("ToUnicode", Obj::Ref(8, 0)),
+            ]),
+        );
+        r.add(
+            6,
+            Obj::dict(vec![
+                ("Type", Obj::name("Font")),
+                ("Subtype", Obj::name("CIDFontType2")),
+                ("BaseFont", Obj::name("VerifSans")),
+                ("CIDSystemInfo", Obj::dict(vec![("Registry", Obj::str(b"Adobe")), ("Ordering", Obj::str(b"Identity")), ("Supplement", Obj::Int(0))])),
+                ("FontDescriptor", Obj::Ref(7, 0)),
+                ("DW", Obj::Int(600)),
+                ("CIDToGIDMap", Obj::name("Identity")),
+            ]),
+        );
+        r.add(
+            7,
+            Obj::dict(vec![
+                ("Type", Obj::name("FontDescriptor")),
+                ("FontName", Obj::name("VerifSans")),
+                ("Flags", Obj::Int(4)),
+                ("FontBBox", Obj::Array(vec![Obj::Int(0), Obj::Int(-200), Obj::Int(1000), Obj::Int(900)])),
+                ("ItalicAngle", Obj::Int(0)),
+                ("Ascent", Obj::Int(900)),
+                ("Descent", Obj::Int(-200)),
+                ("CapHeight", Obj::Int(700)),
+                ("StemV", Obj::Int(80)),
+            ]),
+        );
+        r.add(8, Obj::stream(vec![], TOUNICODE.as_bytes().to_vec()));
+        let mut fb = FileBuilder::new(1);
+        fb.revisions.push(r);
+        fb.build().bytes
+    }
+
+    pub fn run(rep: &mut Report) {
+        // the crafted CMap must mean, to the reference interpreter, what CODES says
+        let refm = rc::CMap::parse(TOUNICODE.as_bytes()).expect("crafted ToUnicode CMap");
+        for (code, want) in CODES {
+            let cands = refm.candidates(&h(code));
+            let got: Option<String> = match cands.as_slice() {
+                [] => None,
+                [Value::Exact(d)] => rc::utf16be_to_string(d),
+                other => panic!("{other:?}"),
+            };
+            assert_eq!(got.as_deref(), want, "reference reading of <{code}>");
+            assert!(refm.in_codespace(&h(code)));
+        }
+        rep.explore("strings", Explore::full(), |c: &mut Ctx| {
+            let n = 1 + c.choose("length", 3);
+            let seq: Vec<usize> = (0..n).map(|_| c.choose("code", CODES.len())).collect();
+            c.input(vx::h64(&seq));
+            c.nontrivial();
+            let hexstr: String = seq.iter().map(|&i| CODES[i].0).collect();
+            let want: String = seq.iter().filter_map(|&i| CODES[i].1).collect();
+            let bytes = build(&hexstr);
+            let text = vx::guard(|| -> Result<String, String> {
+                let doc = PdfReader::new(Cursor::new(bytes)).map(PdfDocument::new).map_err(|e| format!("open: {e}"))?;
+                let mut ex = TextExtractor::new();
+                ex.extract_from_page(&doc, 0).map(|t| t.text).map_err(|e| format!("extract: {e}"))
+            });
+            let text = match text {
+                Ok(Ok(t)) => t,
+                other => {
+                    c.fail("C26/strings-extraction-fails", format!("<{hexstr}>: {other:?}"));
+                    return;
+                }
+            };
+            let got: String = text.chars().filter(|ch| !ch.is_whitespace() && *ch != '\u{FFFD}').collect();
+            c.outcome(vx::h64(&got));
+            c.sample(json!({"shown": format!("<{hexstr}>"), "codes": seq.iter().map(|&i| CODES[i].0).collect::<Vec<_>>(), "want": want, "extracted": text}));
+            // An unmapped code may be rendered as anything (ISO 32000-1 9.10.2: "a conforming reader
+            // may choose a character code of their choosing"), so with unmapped codes in the string
+            // the mapped codes' strings must appear, in order, as a subsequence; without, exactly.
+            let has_unmapped = seq.iter().any(|&i| CODES[i].1.is_none());
+            let ok = if has_unmapped {
+                let mut it = got.chars();
+                want.chars().all(|w| it.any(|g| g == w))
+            } else {
+                got == want
+            };
+            if !ok {
+                // signature of the known defect: at each position try 1..=4 bytes against the
+                // explicit mappings; when nothing matches advance ONE BYTE (not one code)
+                let bytes = h(&hexstr);
+                let mut model = String::new();
+                let mut i = 0;
+                while i < bytes.len() {
+                    let hit = (1..=4.min(bytes.len() - i)).find_map(|n| match refm.candidates(&bytes[i..i + n]).first() {
+                        Some(Value::Exact(d)) => rc::utf16be_to_string(d).map(|t| (n, t)),
+                        _ => None,
+                    });
+                    match hit {
+                        Some((n, t)) => {
+                            model.push_str(&t);
+                            i += n;
+                        }
+                        None => i += 1,
+                    }
+                }
+                let key = if has_unmapped && got == model { "C26/strings-unmapped-code-shifts-the-code-grid-by-one-byte" } else { "C26/strings-wrong-text" };
+                c.fail(key, format!("shown <{hexstr}> with ToUnicode (A=<0041>, X=<4100>, Y=<4241>, <00FF>=fi, <0100>=U+1F600, <0042> unmapped): the mapped codes give {want:?}, extracted {text:?}"));
+            }
+        });
+    }
+}
